@@ -645,6 +645,17 @@ impl<'a> Parser<'a> {
         let mut params = vec![];
         let mut seen_names: FxHashSet<JsString> = FxHashSet::default();
 
+        // A leading `this: T` only declares the type of `this`; it is not a parameter
+        if self.check(&TokenKind::This) {
+            self.advance();
+            if self.match_token(&TokenKind::Colon) {
+                self.parse_type_annotation()?;
+            }
+            if !self.check(&TokenKind::RParen) {
+                self.require_token(&TokenKind::Comma)?;
+            }
+        }
+
         while !self.check(&TokenKind::RParen) && !self.is_at_end() {
             let param_start = self.current.span;
 
@@ -4509,9 +4520,10 @@ impl<'a> Parser<'a> {
             // Check for rest parameter
             let is_rest = self.match_token(&TokenKind::DotDotDot);
 
-            // Parameter name (must be identifier for function type)
+            // Parameter name (must be identifier for function type, or `this`)
             let name = match &self.current.kind {
                 TokenKind::Identifier(n) => n.clone(),
+                TokenKind::This if params.is_empty() && !is_rest => self.intern("this"),
                 _ => return Err(self.unexpected_token("parameter name")),
             };
             self.advance();
